@@ -25,6 +25,7 @@ necessary to account for:
 from numpy import exp, cos, sin
 
 from tangelo.toolboxes.operators import QubitOperator
+from tangelo.linq import Gate
 
 
 def get_qulacs_gates():
@@ -91,7 +92,8 @@ def translate_c_to_qulacs(source_circuit, noise_model=None, save_measurements=Fa
     # Maps the gate information properly. Different for each backend (order, values)
     for gate in source_circuit._gates:
         if gate.name == 'CNOT' and len(gate.control) > 1:
-            gate.name = 'CX'
+            # Multi-controlled CNOT is handled as CX. Use a renamed copy: the source circuit must not be modified.
+            gate = Gate('CX', gate.target, gate.control, gate.parameter, gate.is_variational)
         if gate.name in {"H", "X", "Y", "Z", "S", "T"}:
             (GATE_QULACS[gate.name])(target_circuit, gate.target[0])
         elif gate.name in {"CH", "CX", "CY", "CZ"}:
